@@ -222,7 +222,7 @@ func (r *runner) onWrite(idx int, b *kvrec.Batch) {
 		if r.recordCounts {
 			r.w.nState[r.cur.Header().ID()] = r.nSt
 		}
-		ev["last"] = !r.recordCounts && r.nSt == r.w.nState[r.cur.Header().ID()]
+		ev["last"] = false // set afterwards, see deliver
 	}
 	r.evs = append(r.evs, ev)
 }
@@ -250,14 +250,36 @@ func (r *runner) deliver(blk *block.Block) (alive bool) {
 	beginIdx := len(r.evs) - 1
 	defer func() {
 		r.cur = nil
-		if x := recover(); x != nil {
-			if cs, ok := x.(kvrec.CrashSentinel); ok {
-				alive = false
-				r.crashPhases = append(r.crashPhases, cs.Class)
-				r.lastCrashPos = r.pos
-				return
+		prevented := "" // class of the write a crash prevented
+		x := recover()
+		if x != nil {
+			cs, ok := x.(kvrec.CrashSentinel)
+			if !ok {
+				panic(x)
 			}
-			panic(x)
+			alive = false
+			prevented = cs.Class
+			r.crashPhases = append(r.crashPhases, cs.Class)
+			r.lastCrashPos = r.pos
+		}
+		// the state of the block is complete with its last state write: the one followed by a write of another class,
+		// performed or prevented (not taken from the reference run: a node whose finality lags after a crash may
+		// import a block the uninterrupted node refused)
+		lastState, follows := -1, false
+		for i := beginIdx; i < len(r.evs); i++ {
+			if r.evs[i]["e"] != "W" {
+				continue
+			}
+			if r.evs[i]["cls"] == "state" {
+				if !follows {
+					lastState = i
+				}
+			} else {
+				follows = true
+			}
+		}
+		if lastState >= 0 && (follows || (prevented != "" && prevented != "state")) {
+			r.evs[lastState]["last"] = true
 		}
 	}()
 	var class string
